@@ -446,7 +446,11 @@ class Run:
         p = self.symbols[symbol]
         if room <= 0:
             return unit(p)
-        x = q(D(room.numerator) / D(room.denominator), p, decimal.ROUND_DOWN)
+        if room >= 10 ** 15:
+            return fallback           # the largest grantable amount does not fit the 28-digit context at this precision
+        with decimal.localcontext() as ctx:
+            ctx.prec = 80
+            x = q(D(room.numerator) / D(room.denominator), p, decimal.ROUND_DOWN)
         k = int(fallback * 7) % 3 - 1
         x = x + k * unit(p)
         self.stats["boundary_loans"] += 1
